@@ -202,7 +202,21 @@ def run(ctx):
             break
 
 
+_run_core = run
+
+
+def run(ctx):
+    _run_core(ctx)
+    if ctx.n_new() == 0 and ctx.driver_ok:
+        from harness.common import run_demo
+        run_demo(ctx, 'demo_tr3.py', [1 + ctx.seed], 'c02-code-vs-generated-vs-model',
+                 'inference / leaf likelihood code vs generated definitions vs model', env_extra=dict(DEMO_SECTIONS='a'))
+
+
 def replay(rep):
+    if rep['replay'].get('kind') == 'demo':
+        from harness.common import replay_demo
+        return replay_demo(rep['replay'])
     r = rep['replay']
     root, order = build_from_table(r['table'])
     dom = S.domain_of(order)
